@@ -230,3 +230,39 @@ Proof.
   exfalso. apply Hb. reflexivity.
 Qed.
 
+
+(* ------------------------------------------------------------------ several processes, one database *)
+Lemma proc_independent : forall bang s1 s2 p, proc_records bang s1 p = proc_records bang s2 p.
+Proof. intros. destruct p; reflexivity. Qed.
+
+(** the first line typed in a fresh process is recorded whatever the database holds *)
+Lemma first_line_recorded : forall stored t rest,
+  starts_with_space t = false -> trim t <> [] ->
+  exists r, proc_records idbang stored (Interactive (t :: rest)) = t :: r.
+Proof.
+  intros stored t rest Hs Hb. unfold proc_records, initial_previous_cmd. cbn [session_run].
+  unfold session_step, idbang.
+  destruct (is_empty (trim t)) eqn:Et; [destruct (trim t); [contradiction|discriminate]|].
+  rewrite Hs. cbn [negb andb].
+  destruct (str_eqb t []) eqn:E.
+  - apply str_eqb_eq in E. subst t. exfalso. apply Hb. reflexivity.
+  - cbn [negb]. eexists. reflexivity.
+Qed.
+
+Lemma db_procs_app : forall bang ps stored, exists added, db_procs bang stored ps = stored ++ added.
+Proof.
+  induction ps as [|p ps IH]; intro stored; cbn [db_procs].
+  - exists []. now rewrite app_nil_r.
+  - destruct (IH (stored ++ proc_records bang stored p)) as [a Ha]. rewrite Ha.
+    exists (proc_records bang stored p ++ a). now rewrite app_assoc.
+Qed.
+
+(** the table after a sequence of processes = the stored rows followed by what each
+    process records on its own (computed from an EMPTY table) *)
+Lemma db_procs_concat : forall bang ps stored,
+  db_procs bang stored ps = stored ++ concat (map (proc_records bang []) ps).
+Proof.
+  induction ps as [|p ps IH]; intro stored; cbn [db_procs map concat].
+  - now rewrite app_nil_r.
+  - rewrite IH, (proc_independent bang stored [] p). now rewrite app_assoc.
+Qed.
